@@ -22,7 +22,7 @@ T = {
  "C07-1": (["C07", "C06"], "", "a function whose temporaries alternate type (f32, i32, f32): e.g. return (a < 1.5) + (a < 2.5) with float a"),
  "C07-2": (["C07"], "C06 does not see it (the colliding signatures need two functions; C06 programs have one)", "two functions in one module where (p1..pn, t) -> void and (p1..pn) -> t occur (collision of the signature key)"),
  "C08-1": (["C08"], "", None),
- "C08-2": (["C01"], "C08 does not see it: the change is in RewriteAssignEqualOperations, after parsing — the parse tree C08 observes is unchanged; the wrong VALUE is what C01 reports", None),
+ "C08-2": (["C08", "C01"], "first missed by C08 (only C01 reported the wrong value): the change is in RewriteAssignEqualOperations, after parsing, so the parse tree is unchanged; caught by C08 after the second observable of the statement — the evaluated VALUE of pairs, triples and compound assignments — was added", None),
  "C09-1": (["C09"], "", None), "C09-2": (["C09"], "", None),
  "C10-1": (["C10"], "caught after a stratum with three viable overloads was added", None), "C10-2": (["C10"], "", None),
  "C11-1": (["C11"], "", None), "C11-2": (["C11"], "", None),
